@@ -310,7 +310,8 @@ PROPERTIES = {
         "ordered-dedup invariant did not discharge in the time budget): covered by the bounded API layer only; send, "
         "Event.__call__ and Event.__get__ are proved"]},
     "C12": {"lemmas": [_lemmas_cnt, lambda: __import__("contracts.dispatcher", fromlist=["x"]).lemma_nprov_monotone()],
-            "bounded": [api_layer("C12"), witnesses("C12", ["C12_late_async_listener", "C12_reattach_duplicates_expression_guard"])],
+            "bounded": [api_layer("C12"), probes("C12", ["C12_equal_but_distinct_listeners"]),
+                        witnesses("C12", ["C12_late_async_listener", "C12_reattach_duplicates_expression_guard"])],
             "assumptions": ["Listeners.search_name is proved (every provider of a name contributes one pair, symmetric in the providers); "
                             "Listeners.resolve / build / _take_callback, CallbacksExecutor.add and StateMachine._register_callbacks / "
                             "add_listener are not under contract yet: the bounded API layer stands in; the registry/executor/wrapper "
@@ -333,7 +334,7 @@ PROPERTIES = {
                 "operands of guard expressions are read without side effects (OperandCall oracle)",
                 "build_expression / parse_boolean_expr (AST walk) and Listeners.build are not under contract yet: the AST->closure mapping is covered by the bounded lexical layer only; the five combinator closures, the guard conjunction (all/async_all, expected_value) and CallbacksRegistry.check are proved",
                 "operator.eq/ne/gt/ge/lt/le are Python's comparisons (CMP)"]},
-    "C17": {"bounded": [clone_layer()], "assumptions": [
+    "C17": {"bounded": [clone_layer(), witnesses("C17", ["C17_equal_listeners_collapse"])], "assumptions": [
         "copy.deepcopy / pickle protocol: the dict returned by __getstate__ is deep-copied and __setstate__ runs on a blank instance (so original and clone share no mutable state)",
         "_register_callbacks / add_listener / _get_engine / async_or_sync / engine.start enter through abstract contracts read off their bodies (what they do to has_async_callbacks, the listeners and the pending activation)",
         "behavioural equality after the round trip follows from equal views (same class, stored value, options, listeners, engine kind, pending activation) by the engine contracts of C01-C04"]},
